@@ -48,7 +48,8 @@ def generate(tier, rng):
         for ty, derives in (('String', ['Display', 'AsRefStr']), ('StaticStr', ['Display', 'AsRefStr', 'IntoStaticStr']),
                             ('u32', ['Display']), ('i64', ['Display']), ('Inner', ['Display', 'AsRefStr', 'IntoStaticStr']),
                             ('BoxStr', ['Display', 'AsRefStr'])):
-            e = new(['EnumString'] + derives if ty not in ('StaticStr',) else derives, ['parse', 'names'] if ty != 'StaticStr' else ['names', 'mk'])
+            e = new(['EnumString'] + derives if ty not in ('StaticStr',) else derives, ['parse', 'names'] if ty != 'StaticStr' else ['names', 'mk'],
+                    prefix=(None if form == 'tuple' else 'pfx:'))   # a prefix belongs to NAMES; a forwarded value has none
             tv = VSpec(ident='Wrap', kind=form, ftypes=[ty], tr=True)
             if form == 'named':
                 tv.fnames, tv.fdw = ['inner'], [None]
